@@ -117,6 +117,9 @@ func processByDirectory(firstDir string) {
 	keys := cloc_app.BuildBaseKey(baseCloc)
 
 	outputFiles := processDirs(dirs)
+	// the whole-tree count skips entries whose path ends with an --exclude-dir pattern (repo.git),
+	// the count of such a subdirectory itself does not: name its languages in the header too
+	keys = cloc_app.MergeDirKeys(keys, outputFiles)
 	toCsv := cloc_app.ConvertToCsv(outputFiles, keys)
 	WriteToCsv(toCsv, "cloc.csv")
 }
